@@ -17,7 +17,7 @@ META = {
                   "typelib.py.inspection.unwrap", "typelib.py.refs.forwardref"],
     "bounds": {
         "quick": "key family of one base type x 6 stored forms + 5 two-layer lookup keys (NewType over alias / over string alias / of NewType, alias of NewType, Final of NewType) "
-                 "(+ a second family for non-interference and a stored reference to a short-name decoy); one top-level base family (seed-rotated of 3) and the nested-class family (dotted qualified name); pre-state: 6 presence bits, up to 4 "
+                 "(+ a second family for non-interference and a stored reference to a short-name decoy); one top-level base family (seed-rotated of 3) in full, and - every key by subscription, three by get - the nested-class family (dotted qualified name), a bare user Generic, classes of a module not registered in sys.modules; pre-state: 6 presence bits, up to 4 "
                  "alias-memo bits (choice variables, realised by the solver; the step then runs natively), distinct stored tokens; op1 in {[], get(default), in(stored keys)} x 6 keys, "
                  "then op2 = [] / get with a symbolic key; all three base families; 20 s per condition",
         "thorough": "same with both op orders and the second family at full size; 60 s per condition",
@@ -153,8 +153,10 @@ def _eq(a, b):
 def conditions(tier, seed):
     to = 40.0 if tier == "quick" else 90.0
     out = []
-    fams = (0, 1, 2, 3) if tier != "quick" else (seed % 3, 3)  # family 3: a nested class (dotted qualified name) + short-name decoy
-    for fi in fams:
+    # families: 0-2 top-level classes, 3 a nested class (dotted qualified name) + short-name decoy, 4 a user Generic used
+    # bare, 5 classes of a module that is not registered in sys.modules
+    full = (0, 1, 2, 3, 4, 5) if tier != "quick" else (seed % 3,)
+    for fi in full:
         for op1 in (0, 1, 2):
             for k1 in range(6):
                 for g2 in (False, True):
@@ -164,4 +166,10 @@ def conditions(tier, seed):
                 out.append(make(fi, op1, k1, (k1 + op1) % 2 == 1 if tier == "quick" else False, to))
                 if tier != "quick":
                     out.append(make(fi, op1, k1, True, to))
+    if tier == "quick":  # the special families: every key by subscription, three keys by get
+        for fi in (3, 4, 5):
+            for k1 in range(11):
+                out.append(make(fi, 0, k1, k1 % 2 == 1, to))
+            for k1 in (0, 3, 7):
+                out.append(make(fi, 1, k1, False, to))
     return out
